@@ -128,7 +128,14 @@ EndEv ==
          \* the detail names the reasons for which the reference fails the query (all error steps)
          RECURSIVE Cat(_)
          Cat(q) == IF Len(q) = 0 THEN "" ELSE IF Len(q) = 1 THEN q[1] ELSE q[1] \o "," \o Cat(Tail(q))
-         whytxt == IF structural THEN "why=" \o Cat(SetToSortSeq(Whys(gr), LAMBDA a, b : TRUE)) ELSE "why=?"
+         \* a collision of label sets that arises only in the output of the root node is named "dupls-root"
+         \* (every result is checked for it); "dupls" is a collision inside the expression
+         root == sc.plan[Len(sc.plan)]
+         kidwhys == IF "dupls" \in Whys(gr)
+                    THEN UNION {Whys(GridRes([sc EXCEPT !.plan = SubSeq(sc.plan, 1, root.args[k])])) : k \in 1..Len(root.args)}
+                    ELSE {}
+         whys == IF "dupls" \in Whys(gr) /\ "dupls" \notin kidwhys THEN (Whys(gr) \ {"dupls"}) \cup {"dupls-root"} ELSE Whys(gr)
+         whytxt == IF structural THEN "why=" \o Cat(SetToSortSeq(whys, LAMBDA a, b : TRUE)) ELSE "why=?"
          v2 == IF refok /\ ~engok THEN {<<sc.id, "EngEqualsSpec", whytxt>>} ELSE {}
          v1 == IF cmpok.equal \/ tie THEN {} ELSE {<<sc.id, "EngEqualsRef", cmpok.what \o ":" \o cmpok.shape \o " " \o whytxt>>}
          v3 == IF eng.err = "" THEN {<<sc.id, c, "">> : c \in WFClauses(sc, eng)} ELSE {}
